@@ -24,6 +24,7 @@ Same(st, logged) ==
   /\ st.lastpos = logged.last_position
   /\ st.lastnl = logged.last_nl
   /\ st.lines = { logged.line_offsets[i] : i \in DOMAIN logged.line_offsets }
+  /\ ImplOffsetFn(st) = logged.offset_fn
 
 \* the model's bookkeeping after the call (the logged result selects the branch)
 ImplAfter(e) ==
@@ -55,12 +56,14 @@ TINext ==
      /\ impl' = IF e.op = "reset" THEN NewImpl ELSE ImplAfter(e)
      /\ drifted' = IF e.op = "reset" THEN FALSE
                    ELSE drifted \/ ("st" \in DOMAIN e /\ ~Same(impl', e.st))
+                                \/ (e.op = "advance" /\ "ret" \in DOMAIN e /\ e.ret # ImplAdvanceRet(impl, K, e.p))
      /\ tpos' = tpos + 1
 
 \* always TRUE; prints the first drifting event of every trace
 DriftReport ==
   (tpos > 1 /\ tpos - 1 <= Len(Events) /\ drifted) =>
      LET e == Events[tpos - 1] IN
-     ("st" \in DOMAIN e /\ ~Same(impl, e.st)) => PrintT(<<"MODEL-DRIFT", tpos - 1>>)
+     (("st" \in DOMAIN e /\ ~Same(impl, e.st)) \/ (e.op = "advance" /\ "ret" \in DOMAIN e /\ e.ret # ImplOffsetFn(impl)))
+        => PrintT(<<"MODEL-DRIFT", tpos - 1>>)
 TraceEnd == LET d == TLCGet("stats").diameter IN PrintT(<<"TRACE-EXPLAINED-UPTO", d - 1, Len(Events)>>)
 =============================================================================
